@@ -750,8 +750,13 @@ func (vc *VC) convert(fr *Frame, st *State, x Term, from, to types.Type) Term {
 		m := vc.get(st, "M_uint8", memSort(vc.sortOf(types.Typ[types.Uint8])))
 		vc.q.DeclareFun("str_of_bytes", []Sort{ArraySort(SPath, m.Sort.elemCell()), SPath, SInt, SInt}, SStr)
 		r := App(SStr, "str_of_bytes", Select(m, Root(SBase(x))), PathOf(SBase(x)), SOff(x), SLen(x))
-		r = vc.q.Define(fr.prefix+"$str", r)
-		vc.q.Assert(Eq(App(SInt, "strlen", r), SLen(x)))
+		if !vc.assumedFacts["strlen_of_bytes"] {
+			// the length of the string is the length of the slice (stated once, as a quantified fact, so that the
+			// conversion is a plain term and may appear under a quantifier of a contract clause)
+			vc.assumedFacts["strlen_of_bytes"] = true
+			rs := ArraySort(SPath, m.Sort.elemCell())
+			vc.q.Raw(fmt.Sprintf("(assert (forall ((r %s) (p Path) (o Int) (n Int)) (! (=> (>= n 0) (= (strlen (str_of_bytes r p o n)) n)) :pattern ((str_of_bytes r p o n)))))", rs))
+		}
 		return r
 	}
 	if _, isSl := to.Underlying().(*types.Slice); isSl && fb != nil && fb.Info()&types.IsString != 0 {
